@@ -400,21 +400,27 @@ def arg_variants(cls, name):
     return out
 
 
-def equivariance(ctx, cname, make, perm, measures, n, replay_base, variants=False):
+def equivariance(ctx, cname, make, perm, measures, n, replay_base, variants=False,
+                 extra_calls=(), via=""):
     """compare every zero-argument measure of the object (with `variants`: also every
-    non-default call pattern of `arg_variants`) with that of its permuted twin"""
+    non-default call pattern of `arg_variants`; `extra_calls`: further (name, args, kwargs)
+    calls) with that of its permuted twin.  `via` names the construction path of the twin."""
     net, pnet = make(None), make(perm)
     directed_extra = net.directed
     # grid distances are float32 computations: summation order matters at 1e-7
     rtol = 1e-7 if cname in ("Network", "RecurrenceNetwork", "JointRecurrenceNetwork",
                              "InterSystemRecurrenceNetwork") else 2e-5
     if variants:
-        calls = [(m, kw) for m in measures for kw in [{}] + arg_variants(type(net), m)]
+        calls = [(m, (), kw) for m in measures for kw in [{}] + arg_variants(type(net), m)]
     else:
-        calls = [(m, {}) for m in measures]
-    for m, kw in calls:
-        shown = m if not kw else f"{m}({', '.join(f'{k}={v!r}' for k, v in kw.items())})"
-        if "w" in kw.values() and net.n_links == 0:
+        calls = [(m, (), {}) for m in measures]
+    calls += list(extra_calls)
+    tag = f" [twin built via {via}]" if via else ""
+    for m, args, kw in calls:
+        shown = m if not (kw or args) else \
+            f"{m}({', '.join([repr(a) for a in args] + [f'{k}={v!r}' for k, v in kw.items()])})"
+        shown += tag
+        if ("w" in kw.values() or "w" in args) and net.n_links == 0:
             continue
         if kw.get("parallelize"):
             # each call forks a process pool (seconds on a loaded machine): a bounded number of
@@ -427,7 +433,7 @@ def equivariance(ctx, cname, make, perm, measures, n, replay_base, variants=Fals
                 continue
             ctx._pool_calls_left = left - 1
         try:
-            v = quiet(getattr(net, m), **kw)
+            v = quiet(getattr(net, m), *args, **kw)
         except Exception:  # noqa
             ctx.count(f"{cname}:raises")
             continue
@@ -436,25 +442,259 @@ def equivariance(ctx, cname, make, perm, measures, n, replay_base, variants=Fals
             ctx.count(f"{cname}:shape-not-judged")
             continue
         try:
-            got = quiet(getattr(pnet, m), **kw)
+            got = quiet(getattr(pnet, m), *args, **kw)
         except Exception as ex:  # noqa
             ctx.fail({"kind": "raises-on-permuted", "class": cname, "measure": m},
                      f"{cname}.{shown} raises {type(ex).__name__} on the permuted network only",
-                     dict(replay_base, measure=m, kwargs=kw, permutation=list(perm)))
+                     dict(replay_base, measure=m, args=list(args), kwargs=kw,
+                          permutation=list(perm)))
             continue
-        ctx.count(f"{cname}:measures-compared" + (":non-default-args" if kw else ""))
+        ctx.count(f"{cname}:measures-compared" + (":non-default-args" if kw or args else "")
+                  + (f":via-{via}" if via else ""))
         if not same_val(exp, got, rtol):
-            r = dict(replay_base, measure=m, kwargs=kw, permutation=list(perm))
+            r = dict(replay_base, measure=m, args=list(args), kwargs=kw, permutation=list(perm))
             try:
                 r.update(expected=np.asarray(exp, dtype=float).round(6).tolist(),
                          observed=np.asarray(got, dtype=float).round(6).tolist())
             except Exception:  # noqa
                 pass
-            ctx.fail({"kind": "not-equivariant", "class": cname, "measure": m,
-                      "input_class": "directed" if directed_extra and m not in DIRECTED_OK
-                      else "any"},
-                     f"{cname}.{shown} on permuted_copy({list(perm)}) is not the permuted result",
-                     r)
+            sig = {"kind": "not-equivariant", "class": cname, "measure": m,
+                   "input_class": "directed" if directed_extra and m not in DIRECTED_OK
+                   else "any"}
+            if via:
+                # the twin came through another construction path than the reference
+                sig["via"] = "injected-graph" if via.startswith(("FromIGraph", "Load")) or \
+                    via.endswith(".Load") else "constructor"
+            ctx.fail(sig, f"{cname}.{shown} on permuted_copy({list(perm)}) is not the permuted "
+                     f"result", r)
+
+
+# ---------------------------------------------------------------------------------------
+# round 4: every construction path, link attributes set AFTER construction
+# ---------------------------------------------------------------------------------------
+
+def weighted_calls(cls):
+    """every public query that reads a link / node attribute: measures with an optional
+    `link_attribute` / `key` argument called with the attribute "w", and the attribute getters
+    (`link_attribute("w")`, `average_link_attribute("w")`, `node_attribute("a")`, ...)"""
+    out = []
+    for name in sorted(dir(cls)):
+        if name.startswith("_") or name.startswith(("set_", "del_")) or name == "pagerank":
+            continue
+        fn = getattr(cls, name)
+        if not callable(fn) or isinstance(inspect.getattr_static(cls, name),
+                                          (staticmethod, classmethod)):
+            continue
+        try:
+            params = list(inspect.signature(fn).parameters.values())[1:]
+        except (TypeError, ValueError):
+            continue
+        required = [p for p in params if p.default is inspect.Parameter.empty
+                    and p.kind in (p.POSITIONAL_ONLY, p.POSITIONAL_OR_KEYWORD)]
+        if len(required) == 1 and required[0].name == "attribute_name":
+            out.append((name, ("a" if "node" in name else "w",), {}))
+        elif not required:
+            for p in params:
+                if p.default is None and p.name in ("link_attribute", "key"):
+                    out.append((name, (), {p.name: "w"}))
+    return out
+
+
+def shuffled_links(Ap, directed, rng, both=False):
+    """the links of the adjacency matrix in random order; undirected links once, in a random
+    orientation (`both`: in both orientations, as `edge_list()` returns them)"""
+    n = Ap.shape[0]
+    E = [(i, j) for i in range(n) for j in range(n) if Ap[i, j] and (directed or i < j)]
+    if not directed:
+        E = [(j, i) if rng.random() < 0.5 else (i, j) for i, j in E]
+        if both:
+            E = E + [(j, i) for i, j in E]
+    rng.shuffle(E)
+    return [(int(i), int(j)) for i, j in E]
+
+
+CONSTRUCTION_PATHS = ("edge_list", "edge_list_both_orientations", "set_edge_list", "sparse_coo",
+                      "sparse_csr", "sparse_lil", "adjacency_setter", "FromIGraph",
+                      "FromIGraph_attribute_in_graph", "FromIGraph_copy", "FromIGraph_permuted_copy",
+                      "FromIGraph_history", "Load_graphml", "Load_graphml_attribute_in_file",
+                      "Load_edgelist", "Load_pickle")
+SPATIAL_PATHS = ("SpatialNetwork.Load", "GeoNetwork.Load")
+
+
+def build_via(path, Ap, directed, wp, Wp, ap, rng, tmpdir, grid=None, A0=None, W0=None,
+              w0=None, a0=None, perm=None):
+    """the network with adjacency `Ap`, node weights `wp`, link attribute "w" = `Wp` and node
+    attribute "a" = `ap`, built through the construction path `path` from links listed in
+    random order; the link attribute is set after construction (unless the path says that the
+    attribute travels with the graph / file).  -> (network, list of links as handed over)"""
+    import igraph
+    import scipy.sparse as sp
+    from pyunicorn.core import Network, SpatialNetwork, GeoNetwork
+    n = Ap.shape[0]
+    E = shuffled_links(Ap, directed, rng, both=(path == "edge_list_both_orientations"))
+    set_after = True
+
+    def graph(edges, W=None, w=None):
+        g = igraph.Graph(n=n, edges=edges, directed=directed)
+        if w is not None:
+            g.vs["node_weight_nsi"] = [float(x) for x in w]
+        if W is not None:
+            g.es["w"] = [float(W[e]) for e in edges]
+        return g
+    if path in ("edge_list", "edge_list_both_orientations"):
+        net = Network(edge_list=E, n_nodes=n, directed=directed, node_weights=wp, silence_level=3)
+    elif path == "set_edge_list":
+        net = Network(adjacency=np.zeros((n, n), dtype=int), directed=directed, node_weights=wp,
+                      silence_level=3)
+        net.set_edge_list(E, n)
+    elif path.startswith("sparse_"):
+        F = E if directed else E + [(j, i) for i, j in E]
+        rng.shuffle(F)
+        M = sp.coo_matrix((np.ones(len(F), dtype=rng.choice([np.int8, np.int64, np.float64, bool])),
+                           ([e[0] for e in F], [e[1] for e in F])), shape=(n, n))
+        M = {"sparse_coo": M, "sparse_csr": M.tocsr(), "sparse_lil": M.tolil()}[path]
+        net = Network(adjacency=M, directed=directed, node_weights=wp, silence_level=3)
+    elif path == "adjacency_setter":
+        other = 1 - Ap - np.eye(n, dtype=int)
+        net = Network(adjacency=other if not directed else other.T, directed=directed,
+                      node_weights=wp, silence_level=3)
+        net.set_link_attribute("w", np.ones((n, n)))
+        net.adjacency = Ap
+    elif path == "FromIGraph":
+        net = Network.FromIGraph(graph(E, w=wp), silence_level=3)
+    elif path == "FromIGraph_attribute_in_graph":
+        net = Network.FromIGraph(graph(E, W=Wp, w=wp), silence_level=3)
+        set_after = False
+    elif path == "FromIGraph_copy":
+        net = Network.FromIGraph(graph(E, W=Wp, w=wp), silence_level=3).copy()
+        set_after = False
+    elif path == "FromIGraph_permuted_copy":
+        # the *original* numbering through FromIGraph, then the library's own renumbering
+        E = shuffled_links(A0, directed, rng)
+        g = igraph.Graph(n=n, edges=E, directed=directed)
+        g.vs["node_weight_nsi"] = [float(x) for x in w0]
+        net = Network.FromIGraph(g, silence_level=3)
+        net.set_link_attribute("w", W0)
+        net = net.permuted_copy(list(perm))
+    elif path == "FromIGraph_history":
+        # an attribute set, overwritten, deleted and set again on an injected graph
+        net = Network.FromIGraph(graph(E, W=Wp.T * 3 + 1, w=wp), silence_level=3)
+        net.set_link_attribute("w", Wp * 2 + 5)
+        quiet(net.link_attribute, "w")
+        net.set_link_attribute("v", Wp + 1)
+        net.del_link_attribute("w")
+    elif path in ("Load_graphml", "Load_graphml_attribute_in_file", "Load_pickle"):
+        infile = path == "Load_graphml_attribute_in_file"
+        g = graph(E, W=Wp if infile else None, w=wp)
+        fmt = "pickle" if path == "Load_pickle" else "graphml"
+        fn = f"{tmpdir}/net.{fmt}"
+        g.write(fn, format=fmt)
+        net = Network.Load(fn, fileformat=fmt, silence_level=3)
+        set_after = not infile
+    elif path == "Load_edgelist":
+        # a plain edge-list file infers the number of nodes from the largest number used
+        if not (Ap[n - 1].any() or Ap[:, n - 1].any()):
+            return None, E
+        fn = f"{tmpdir}/net.edges"
+        with open(fn, "w") as f:
+            f.writelines(f"{i} {j}\n" for i, j in E)
+        net = Network.Load(fn, fileformat="edgelist", silence_level=3, directed=directed)
+        net.node_weights = wp
+    elif path in SPATIAL_PATHS:
+        cls = SpatialNetwork if path == "SpatialNetwork.Load" else GeoNetwork
+        g = graph(E, w=wp)
+        fn, fg = f"{tmpdir}/snet.graphml", f"{tmpdir}/grid.pickle"
+        g.write(fn, format="graphml")
+        grid.save(fg)
+        net = quiet(cls.Load, (fn, fg), fileformat="graphml", silence_level=3)
+    else:
+        raise ValueError(path)
+    if set_after:
+        net.set_link_attribute("w", Wp)
+    net.set_node_attribute("a", [float(x) for x in ap])
+    return net, E
+
+
+def construction_paths(ctx, A, directed, w, W, pos, lat, lon, perm, base, meas, full):
+    """round 4 (seeded change C04-6): the reference network is built from the dense adjacency
+    matrix in the original numbering; its renumbered twin is built through *every other*
+    construction path from links listed in random order (edge lists, sparse matrices, injected
+    igraph graphs, files), and only then given its link attribute.  Every query that reads the
+    attribute, and (on the paths that inject a foreign graph object) every other measure, must
+    be the renumbered result."""
+    import shutil
+    import tempfile
+    from pyunicorn.core import Network, SpatialNetwork, GeoNetwork, GeoGrid, Grid
+    rng = ctx.rng
+    n = A.shape[0]
+    idx = np.array(perm)
+    a = np.array([rng.choice([-1.5, 0.25, 2.0, 7.0]) + i for i in range(n)])
+    Ap, wp, Wp, ap = A[idx][:, idx], w[idx], W[idx][:, idx], a[idx]
+    tmpdir = tempfile.mkdtemp(prefix="C04-paths-")
+
+    def reference(cls=Network, grid=None):
+        kw = {} if grid is None else {"grid": grid}
+        net = cls(adjacency=A, directed=directed, silence_level=3, **kw)
+        net.node_weights = w
+        net.set_link_attribute("w", W)
+        net.set_node_attribute("a", [float(x) for x in a])
+        return net
+    try:
+        wcalls = weighted_calls(Network)
+        for path in CONSTRUCTION_PATHS:
+            handed = {}
+
+            def make(p, path=path):
+                if p is None:
+                    return reference()
+                net, E = build_via(path, Ap, directed, wp, Wp, ap, rng, tmpdir, A0=A, W0=W, w0=w,
+                                   a0=a, perm=perm)
+                handed["links"] = E
+                return net
+            probe = make(perm)
+            if probe is None:
+                ctx.count(f"path:{path}:not-applicable")
+                continue
+            calls = [(m, ar, {k: ("v" if path == "FromIGraph_history" else v) for k, v in kw.items()})
+                     for m, ar, kw in wcalls]
+            if path == "FromIGraph_history":
+                calls = [(m, tuple("v" if x == "w" else x for x in ar), kw) for m, ar, kw in calls]
+
+                def make(p, path=path, inner=make):        # noqa: F811
+                    net = inner(p)
+                    if p is None:
+                        net.set_link_attribute("v", W + 1)
+                    return net
+            injected = path.startswith(("FromIGraph", "Load"))
+            ctx.count(f"path:{path}")
+            equivariance(ctx, "Network", make, perm,
+                         meas["Network"] if (injected and full) else [], n,
+                         dict(base, construction_path=path, links_as_handed_over=handed.get("links"),
+                              link_attribute=W.tolist()),
+                         extra_calls=calls, via=path)
+        if full:
+            for path in SPATIAL_PATHS:
+                if path == "SpatialNetwork.Load":
+                    cls, own = SpatialNetwork, [m for m in meas["SpatialNetwork"]
+                                                if m not in meas["Network"]]
+                    g0 = Grid(np.arange(3.), pos.T, silence_level=3)
+                    g1 = Grid(np.arange(3.), pos[idx].T, silence_level=3)
+                else:
+                    cls, own = GeoNetwork, [m for m in meas["GeoNetwork"]
+                                            if m not in meas["SpatialNetwork"]]
+                    g0 = GeoGrid(np.arange(3.), lat, lon, silence_level=3)
+                    g1 = GeoGrid(np.arange(3.), lat[idx], lon[idx], silence_level=3)
+
+                def make(p, path=path, cls=cls, g0=g0, g1=g1):
+                    if p is None:
+                        return reference(cls, g0)
+                    return build_via(path, Ap, directed, wp, Wp, ap, rng, tmpdir, grid=g1)[0]
+                ctx.count(f"path:{path}")
+                equivariance(ctx, cls.__name__, make, perm, own, n,
+                             dict(base, construction_path=path, link_attribute=W.tolist()),
+                             variants=True, extra_calls=weighted_calls(cls), via=path)
+    finally:
+        shutil.rmtree(tmpdir, ignore_errors=True)
 
 
 def run(ctx):
@@ -600,6 +840,10 @@ def run(ctx):
                 equivariance(ctx, "GeoNetwork", mk_geo, perm,
                              [m for m in meas["GeoNetwork"] if m not in meas["SpatialNetwork"]], n,
                              dict(base, lat=lat.tolist(), lon=lon.tolist()), variants=True)
+            # round 4: every construction path, attributes set after construction
+            if A.sum() > 0 and (not quick or n >= 5 or rng.random() < 0.15):
+                construction_paths(ctx, A, directed, w, W, pos, lat, lon, perm, base, meas,
+                                   full=(not quick) or rng.random() < 0.34)
             # node-list arguments are renumbered with the network
             if not directed and n >= 3:
                 interacting(ctx, A, w, W, g0, perm, base)
